@@ -107,7 +107,7 @@ fail quietly; the current tree dereferences it. -/
 theorem repo_not_correct_nil_src :
     let s : Src := { kind := .int, isPtr := true, v := .nilptr }
     assignAccepts .foreign (.int 1) s false
-      ((assignObsOf (assignM AssignCfg.repo .foreign (.int 1) s true) .foreign (.int 1) s true).getD {}).norm = false := by
+      ((assignObsOf (assignM AssignCfg.original .foreign (.int 1) s true) .foreign (.int 1) s true).getD {}).norm = false := by
   decide
 
 /-- The repaired chain on the same two inputs is accepted (instances of `assign_correct`). -/
@@ -136,6 +136,15 @@ theorem assign_current (dk : DynKind) (old : Val) (s : Src) (noBuf : Bool) (hs :
     assignAccepts dk old s (!noBuf)
       ((assignObsOf (assignM AssignCfg.repo dk old s noBuf) dk old s noBuf).getD {}).norm = true := by
   rw [assignM_current dk old s noBuf hn]; exact assign_correct dk old s noBuf hs
+
+/-- Since `fix: Assign/AssignBuf dereferenced a nil pointer passed as the source` the current tree's chain *is*
+the repaired chain, for every source. -/
+theorem repo_is_fixed : AssignCfg.repo = AssignCfg.fixed := rfl
+
+theorem assign_current_all (dk : DynKind) (old : Val) (s : Src) (noBuf : Bool) (hs : boolSrcTyped dk s = true) :
+    assignAccepts dk old s (!noBuf)
+      ((assignObsOf (assignM AssignCfg.repo dk old s noBuf) dk old s noBuf).getD {}).norm = true := by
+  rw [repo_is_fixed]; exact assign_correct dk old s noBuf hs
 
 end CurrentTree
 
